@@ -1,7 +1,7 @@
 //@ assume: Transaction / PoolEntry / BlockHeader / the blockchain adapter are abstract; transaction::aggregate is an uninterpreted function of the transaction list (its real contract is proved in C12/aggregate); Transaction::validate, BlockChain::validate_tx and apply_tx_to_block_sums are abstract callees with uninterpreted "this check passed" meanings against a given header
 //@ assume: T6 rewrites: `txs.contains(&entry.tx)` => helper (element equality); `txs.extend(extra_tx)` => helper pushing the optional transaction; `entry.tx.clone()` / `extra_tx.clone()` / `self.entries.clone()` => helper clones; `for x in existing_entries {` => Verus iterator loop; log helper abstract
 //@ assume: decided here: the pool's joint-validity invariant. Pool::add_to_pool stores an entry ONLY after the aggregate of every transaction already in the pool, the optional extra transaction (the txpool aggregate when adding to the stempool) and the new transaction passed standalone validation, validation against the chain's UTXO set and the block-sums check at the given header; a duplicate is refused; Pool::reconcile re-admits entries one by one through that same gate, so after it the pool is a sub-sequence of the old one that is jointly valid at the new header
-//@ assumed_items: 15
+//@ assumed_items: 19
 //@ fns: Pool::add_to_pool, Pool::validate_raw_tx, Pool::reconcile
 #[verifier::external_body]
 #[derive(Clone, Copy)]
@@ -19,14 +19,22 @@ pub uninterp spec fn sp_agg(txs: Seq<Transaction>) -> Transaction;
 pub uninterp spec fn sp_valid(t: Transaction, w: Weighting) -> bool;
 pub uninterp spec fn sp_chain_valid(t: Transaction) -> bool;
 pub uninterp spec fn sp_sums_ok(t: Transaction, h: BlockHeader) -> bool;
+/// lock heights reached / spent coinbases mature at the NEXT block on the current head (both can become false after a reorg to a shorter chain)
+pub uninterp spec fn sp_locks_ok(t: Transaction) -> bool;
+pub uninterp spec fn sp_mature_ok(i: Inputs) -> bool;
+pub uninterp spec fn sp_inputs(t: Transaction) -> Inputs;
+#[verifier::external_body]
+pub struct Inputs { _p: u8 }
 /// the combined transaction was checked at header h
-pub open spec fn jointly_valid(t: Transaction, h: BlockHeader) -> bool { sp_valid(t, Weighting::NoLimit) && sp_chain_valid(t) && sp_sums_ok(t, h) }
+pub open spec fn jointly_valid(t: Transaction, h: BlockHeader) -> bool { sp_valid(t, Weighting::NoLimit) && sp_chain_valid(t) && sp_sums_ok(t, h) && sp_locks_ok(t) && sp_mature_ok(sp_inputs(t)) }
 /// what was validated when the pool content `txs` (+ optional extra) was last extended
 pub open spec fn combined(txs: Seq<Transaction>) -> Transaction { if txs.len() == 1 { txs[0] } else { sp_agg(txs) } }
 
 impl Transaction {
     #[verifier::external_body]
     pub fn validate(&self, w: Weighting) -> (r: Result<(), PoolError>) ensures r.is_ok() ==> sp_valid(*self, w) { unimplemented!() }
+    #[verifier::external_body]
+    pub fn inputs(&self) -> (r: Inputs) ensures r == sp_inputs(*self) { unimplemented!() }
 }
 pub mod transaction { use super::*;
     #[verifier::external_body]
@@ -36,6 +44,10 @@ pub struct Chain { _p: u8 }
 impl Chain {
     #[verifier::external_body]
     pub fn validate_tx(&self, tx: &Transaction) -> (r: Result<(), PoolError>) ensures r.is_ok() ==> sp_chain_valid(*tx) { unimplemented!() }
+    #[verifier::external_body]
+    pub fn verify_tx_lock_height(&self, tx: &Transaction) -> (r: Result<(), PoolError>) ensures r.is_ok() ==> sp_locks_ok(*tx) { unimplemented!() }
+    #[verifier::external_body]
+    pub fn verify_coinbase_maturity(&self, inputs: &Inputs) -> (r: Result<(), PoolError>) ensures r.is_ok() ==> sp_mature_ok(*inputs) { unimplemented!() }
 }
 #[verifier::external_body]
 fn vec_contains(v: &Vec<Transaction>, t: &Transaction) -> (r: bool) ensures r == v@.contains(*t) { unimplemented!() }
@@ -62,7 +74,7 @@ impl Pool {
 
 //@ extract pool/src/pool.rs :: impl Pool::validate_raw_tx
 //@   ensures:
-//@+    r.is_ok() ==> sp_valid(*tx, weighting) && sp_chain_valid(*tx) && sp_sums_ok(*tx, *header),
+//@+    r.is_ok() ==> sp_valid(*tx, weighting) && sp_chain_valid(*tx) && sp_sums_ok(*tx, *header) && sp_locks_ok(*tx) && sp_mature_ok(sp_inputs(*tx)),
 //@ end
 
 //@ extract pool/src/pool.rs :: impl Pool::add_to_pool
